@@ -455,9 +455,15 @@ def replay_and_decide(prop, c, o, key, ledger, override):
         nat = native_run(c._module, c.name, [o['model']], override)[0]
         rec['native'] = nat
     confirmed = bool(nat and nat.get('pre_ok') and nat.get('failed'))
+    in_ledger = key in ledger
+    if not in_ledger and o['kind'] == 'frame' and any(k.startswith(c.name + '|') and k.endswith('|' + str(o['config'])) for k in ledger):
+        # frame obligations are only generated for locations the code writes: this one did not exist on the unchanged tree
+        # (nothing wrote there, so it held trivially) while every obligation of this contract and configuration was
+        # discharged; a refuted one now means the code writes outside the contract's `modifies`
+        in_ledger = True
     if confirmed:
         rec['verdict'] = 'violation: counter-model replays on the real code'
-    elif key in ledger:
+    elif in_ledger:
         rec['verdict'] = 'violation: obligation was discharged on the unchanged tree and is now refuted; no-failing-input-found'
         rec['solver_output'] = 'sat (model above)'
     else:
@@ -466,7 +472,7 @@ def replay_and_decide(prop, c, o, key, ledger, override):
         json.dump(rec, f, indent=1, default=str)
     if confirmed:
         return 'violation', path
-    if key in ledger:
+    if in_ledger:
         return 'violation-noinput', path
     return 'undecided', path
 
